@@ -79,11 +79,13 @@ func runC05Case(run *ev.Run, cs c05Case) {
 	atk := vegeta.NewAttacker(vegeta.Client(&http.Client{Transport: rt}), vegeta.Workers(initial), vegeta.MaxWorkers(cs.Workers))
 	results := atk.Attack(tr, p, 0, "c05")
 	var got []*vegeta.Result
+	var received atomic.Int64
 	done := make(chan struct{})
 	go func() {
 		defer close(done)
 		for r := range results {
 			got = append(got, r)
+			received.Add(1)
 		}
 	}()
 	viol := func(clause, class, note string, a, b *vegeta.Result) {
@@ -96,7 +98,13 @@ func runC05Case(run *ev.Run, cs c05Case) {
 		}
 		run.Violate(fmt.Sprintf("C05/%s/%s", clause, class), fmt.Sprintf("%+v: %s", cs, note), w)
 	}
+	awaitProgress = func() int64 { return p.released.Load() + tcalls.Load() + rt.started.Load() + received.Load() }
+	defer func() { awaitProgress = nil }()
 	switch st, dump := awaitEnd(done, 180*time.Second); st {
+	case endSpinning:
+		spinEnd(run, "C05/attack-never-ends/worker-spins-inside-hit", fmt.Sprintf("%+v: over 10 s and at least 40 goroutine dumps the pacer was not consulted, no target was drawn, no request entered the transport and no result arrived, yet a goroutine keeps running inside vegeta: a hit that never gets its sequence number and timestamp (or never returns)", cs),
+			map[string]any{"case": cs, "clause": "attack-never-ends", "goroutines": tail(dump, 4000)})
+		return
 	case endDeadlock:
 		run.Inconclusive("C05 attack deadlocked (not this property's verdict): " + tail(dump, 300))
 		return
@@ -323,15 +331,23 @@ func runC05Real(run *ev.Run, cs c05RealCase) {
 	}
 	atk := vegeta.NewAttacker(opts...)
 	var got []*vegeta.Result
+	var received atomic.Int64
 	done := make(chan struct{})
 	results := atk.Attack(vegeta.NewStaticTargeter(vegeta.Target{Method: "GET", URL: srv.URL + "/hop0"}), p, 0, "c05real")
 	go func() {
 		defer close(done)
 		for r := range results {
 			got = append(got, r)
+			received.Add(1)
 		}
 	}()
-	if st, _ := awaitEnd(done, 180*time.Second); st != endClosed {
+	awaitProgress = func() int64 { return p.released.Load() + served.Load() + received.Load() }
+	defer func() { awaitProgress = nil }()
+	if st, dump := awaitEnd(done, 180*time.Second); st == endSpinning {
+		spinEnd(run, "C05/attack-never-ends/worker-spins-inside-hit/real-transport", fmt.Sprintf("%+v: over 10 s and at least 40 goroutine dumps the pacer was not consulted, no request reached the server and no result arrived, yet a goroutine keeps running inside vegeta", cs),
+			map[string]any{"real_case": cs, "goroutines": tail(dump, 4000)})
+		return
+	} else if st != endClosed {
 		run.Inconclusive("C05 real-transport attack did not end")
 		return
 	}
